@@ -35,6 +35,7 @@ Record shared := mkShared {
   readable : nat; bufptr : bool; room : bool;
   rd : dlv; wd : dlv;
   accepts : nat; ldie : bool; lerr : bool; lrd : dlv;
+  ltok : bool;                              (* the listener's chDeadlineEvent holds a token *)
   o_die : bool; o_rerr : bool; o_werr : bool; o_ldie : bool; o_lerr : bool   (* sync.Once done *)
 }.
 
@@ -76,37 +77,38 @@ Inductive label :=
 | LTick (w : which)                          (* now reaches the stored deadline w *)
 | LTickStale (i : nat)                       (* now reaches the (replaced) deadline of thread i's timer *)
 | LFire (i : nat)                            (* the runtime delivers thread i's due timer *)
-| LStealR | LStealW | LStealAccept           (* another caller consumes the token / backlog entry *)
+| LStealR | LStealW | LStealAccept | LStealL (* another caller consumes the token / backlog entry *)
 | LTakeData | LTakeBuf | LTakeRoom           (* another caller consumes data / window *)
 | LRecall (i : nat).                         (* the finished call is followed by a new one *)
 
 Scheme Equality for label.
 
 (* ------------------------------------------------------------------ setters *)
-Definition set_rtok b s := mkShared b (wtok s) (die s) (rerr s) (werr s) (readable s) (bufptr s) (room s) (rd s) (wd s) (accepts s) (ldie s) (lerr s) (lrd s) (o_die s) (o_rerr s) (o_werr s) (o_ldie s) (o_lerr s).
-Definition set_wtok b s := mkShared (rtok s) b (die s) (rerr s) (werr s) (readable s) (bufptr s) (room s) (rd s) (wd s) (accepts s) (ldie s) (lerr s) (lrd s) (o_die s) (o_rerr s) (o_werr s) (o_ldie s) (o_lerr s).
-Definition set_die b s := mkShared (rtok s) (wtok s) b (rerr s) (werr s) (readable s) (bufptr s) (room s) (rd s) (wd s) (accepts s) (ldie s) (lerr s) (lrd s) (o_die s) (o_rerr s) (o_werr s) (o_ldie s) (o_lerr s).
-Definition set_rerr b s := mkShared (rtok s) (wtok s) (die s) b (werr s) (readable s) (bufptr s) (room s) (rd s) (wd s) (accepts s) (ldie s) (lerr s) (lrd s) (o_die s) (o_rerr s) (o_werr s) (o_ldie s) (o_lerr s).
-Definition set_werr b s := mkShared (rtok s) (wtok s) (die s) (rerr s) b (readable s) (bufptr s) (room s) (rd s) (wd s) (accepts s) (ldie s) (lerr s) (lrd s) (o_die s) (o_rerr s) (o_werr s) (o_ldie s) (o_lerr s).
-Definition set_readable n s := mkShared (rtok s) (wtok s) (die s) (rerr s) (werr s) n (bufptr s) (room s) (rd s) (wd s) (accepts s) (ldie s) (lerr s) (lrd s) (o_die s) (o_rerr s) (o_werr s) (o_ldie s) (o_lerr s).
-Definition set_bufptr b s := mkShared (rtok s) (wtok s) (die s) (rerr s) (werr s) (readable s) b (room s) (rd s) (wd s) (accepts s) (ldie s) (lerr s) (lrd s) (o_die s) (o_rerr s) (o_werr s) (o_ldie s) (o_lerr s).
-Definition set_room b s := mkShared (rtok s) (wtok s) (die s) (rerr s) (werr s) (readable s) (bufptr s) b (rd s) (wd s) (accepts s) (ldie s) (lerr s) (lrd s) (o_die s) (o_rerr s) (o_werr s) (o_ldie s) (o_lerr s).
-Definition set_rd v s := mkShared (rtok s) (wtok s) (die s) (rerr s) (werr s) (readable s) (bufptr s) (room s) v (wd s) (accepts s) (ldie s) (lerr s) (lrd s) (o_die s) (o_rerr s) (o_werr s) (o_ldie s) (o_lerr s).
-Definition set_wd v s := mkShared (rtok s) (wtok s) (die s) (rerr s) (werr s) (readable s) (bufptr s) (room s) (rd s) v (accepts s) (ldie s) (lerr s) (lrd s) (o_die s) (o_rerr s) (o_werr s) (o_ldie s) (o_lerr s).
-Definition set_accepts n s := mkShared (rtok s) (wtok s) (die s) (rerr s) (werr s) (readable s) (bufptr s) (room s) (rd s) (wd s) n (ldie s) (lerr s) (lrd s) (o_die s) (o_rerr s) (o_werr s) (o_ldie s) (o_lerr s).
-Definition set_ldie b s := mkShared (rtok s) (wtok s) (die s) (rerr s) (werr s) (readable s) (bufptr s) (room s) (rd s) (wd s) (accepts s) b (lerr s) (lrd s) (o_die s) (o_rerr s) (o_werr s) (o_ldie s) (o_lerr s).
-Definition set_lerr b s := mkShared (rtok s) (wtok s) (die s) (rerr s) (werr s) (readable s) (bufptr s) (room s) (rd s) (wd s) (accepts s) (ldie s) b (lrd s) (o_die s) (o_rerr s) (o_werr s) (o_ldie s) (o_lerr s).
-Definition set_lrd v s := mkShared (rtok s) (wtok s) (die s) (rerr s) (werr s) (readable s) (bufptr s) (room s) (rd s) (wd s) (accepts s) (ldie s) (lerr s) v (o_die s) (o_rerr s) (o_werr s) (o_ldie s) (o_lerr s).
+Definition set_rtok b s := mkShared b (wtok s) (die s) (rerr s) (werr s) (readable s) (bufptr s) (room s) (rd s) (wd s) (accepts s) (ldie s) (lerr s) (lrd s) (ltok s) (o_die s) (o_rerr s) (o_werr s) (o_ldie s) (o_lerr s).
+Definition set_wtok b s := mkShared (rtok s) b (die s) (rerr s) (werr s) (readable s) (bufptr s) (room s) (rd s) (wd s) (accepts s) (ldie s) (lerr s) (lrd s) (ltok s) (o_die s) (o_rerr s) (o_werr s) (o_ldie s) (o_lerr s).
+Definition set_die b s := mkShared (rtok s) (wtok s) b (rerr s) (werr s) (readable s) (bufptr s) (room s) (rd s) (wd s) (accepts s) (ldie s) (lerr s) (lrd s) (ltok s) (o_die s) (o_rerr s) (o_werr s) (o_ldie s) (o_lerr s).
+Definition set_rerr b s := mkShared (rtok s) (wtok s) (die s) b (werr s) (readable s) (bufptr s) (room s) (rd s) (wd s) (accepts s) (ldie s) (lerr s) (lrd s) (ltok s) (o_die s) (o_rerr s) (o_werr s) (o_ldie s) (o_lerr s).
+Definition set_werr b s := mkShared (rtok s) (wtok s) (die s) (rerr s) b (readable s) (bufptr s) (room s) (rd s) (wd s) (accepts s) (ldie s) (lerr s) (lrd s) (ltok s) (o_die s) (o_rerr s) (o_werr s) (o_ldie s) (o_lerr s).
+Definition set_readable n s := mkShared (rtok s) (wtok s) (die s) (rerr s) (werr s) n (bufptr s) (room s) (rd s) (wd s) (accepts s) (ldie s) (lerr s) (lrd s) (ltok s) (o_die s) (o_rerr s) (o_werr s) (o_ldie s) (o_lerr s).
+Definition set_bufptr b s := mkShared (rtok s) (wtok s) (die s) (rerr s) (werr s) (readable s) b (room s) (rd s) (wd s) (accepts s) (ldie s) (lerr s) (lrd s) (ltok s) (o_die s) (o_rerr s) (o_werr s) (o_ldie s) (o_lerr s).
+Definition set_room b s := mkShared (rtok s) (wtok s) (die s) (rerr s) (werr s) (readable s) (bufptr s) b (rd s) (wd s) (accepts s) (ldie s) (lerr s) (lrd s) (ltok s) (o_die s) (o_rerr s) (o_werr s) (o_ldie s) (o_lerr s).
+Definition set_rd v s := mkShared (rtok s) (wtok s) (die s) (rerr s) (werr s) (readable s) (bufptr s) (room s) v (wd s) (accepts s) (ldie s) (lerr s) (lrd s) (ltok s) (o_die s) (o_rerr s) (o_werr s) (o_ldie s) (o_lerr s).
+Definition set_wd v s := mkShared (rtok s) (wtok s) (die s) (rerr s) (werr s) (readable s) (bufptr s) (room s) (rd s) v (accepts s) (ldie s) (lerr s) (lrd s) (ltok s) (o_die s) (o_rerr s) (o_werr s) (o_ldie s) (o_lerr s).
+Definition set_accepts n s := mkShared (rtok s) (wtok s) (die s) (rerr s) (werr s) (readable s) (bufptr s) (room s) (rd s) (wd s) n (ldie s) (lerr s) (lrd s) (ltok s) (o_die s) (o_rerr s) (o_werr s) (o_ldie s) (o_lerr s).
+Definition set_ldie b s := mkShared (rtok s) (wtok s) (die s) (rerr s) (werr s) (readable s) (bufptr s) (room s) (rd s) (wd s) (accepts s) b (lerr s) (lrd s) (ltok s) (o_die s) (o_rerr s) (o_werr s) (o_ldie s) (o_lerr s).
+Definition set_lerr b s := mkShared (rtok s) (wtok s) (die s) (rerr s) (werr s) (readable s) (bufptr s) (room s) (rd s) (wd s) (accepts s) (ldie s) b (lrd s) (ltok s) (o_die s) (o_rerr s) (o_werr s) (o_ldie s) (o_lerr s).
+Definition set_lrd v s := mkShared (rtok s) (wtok s) (die s) (rerr s) (werr s) (readable s) (bufptr s) (room s) (rd s) (wd s) (accepts s) (ldie s) (lerr s) v (ltok s) (o_die s) (o_rerr s) (o_werr s) (o_ldie s) (o_lerr s).
+Definition set_ltok b s := mkShared (rtok s) (wtok s) (die s) (rerr s) (werr s) (readable s) (bufptr s) (room s) (rd s) (wd s) (accepts s) (ldie s) (lerr s) (lrd s) b (o_die s) (o_rerr s) (o_werr s) (o_ldie s) (o_lerr s).
 
 Definition once_done (o : once) (s : shared) : bool :=
   match o with ODie => o_die s | ORErr => o_rerr s | OWErr => o_werr s | OLDie => o_ldie s | OLErr => o_lerr s end.
 Definition set_once (o : once) (s : shared) : shared :=
   match o with
-  | ODie => mkShared (rtok s) (wtok s) (die s) (rerr s) (werr s) (readable s) (bufptr s) (room s) (rd s) (wd s) (accepts s) (ldie s) (lerr s) (lrd s) true (o_rerr s) (o_werr s) (o_ldie s) (o_lerr s)
-  | ORErr => mkShared (rtok s) (wtok s) (die s) (rerr s) (werr s) (readable s) (bufptr s) (room s) (rd s) (wd s) (accepts s) (ldie s) (lerr s) (lrd s) (o_die s) true (o_werr s) (o_ldie s) (o_lerr s)
-  | OWErr => mkShared (rtok s) (wtok s) (die s) (rerr s) (werr s) (readable s) (bufptr s) (room s) (rd s) (wd s) (accepts s) (ldie s) (lerr s) (lrd s) (o_die s) (o_rerr s) true (o_ldie s) (o_lerr s)
-  | OLDie => mkShared (rtok s) (wtok s) (die s) (rerr s) (werr s) (readable s) (bufptr s) (room s) (rd s) (wd s) (accepts s) (ldie s) (lerr s) (lrd s) (o_die s) (o_rerr s) (o_werr s) true (o_lerr s)
-  | OLErr => mkShared (rtok s) (wtok s) (die s) (rerr s) (werr s) (readable s) (bufptr s) (room s) (rd s) (wd s) (accepts s) (ldie s) (lerr s) (lrd s) (o_die s) (o_rerr s) (o_werr s) (o_ldie s) true
+  | ODie => mkShared (rtok s) (wtok s) (die s) (rerr s) (werr s) (readable s) (bufptr s) (room s) (rd s) (wd s) (accepts s) (ldie s) (lerr s) (lrd s) (ltok s) true (o_rerr s) (o_werr s) (o_ldie s) (o_lerr s)
+  | ORErr => mkShared (rtok s) (wtok s) (die s) (rerr s) (werr s) (readable s) (bufptr s) (room s) (rd s) (wd s) (accepts s) (ldie s) (lerr s) (lrd s) (ltok s) (o_die s) true (o_werr s) (o_ldie s) (o_lerr s)
+  | OWErr => mkShared (rtok s) (wtok s) (die s) (rerr s) (werr s) (readable s) (bufptr s) (room s) (rd s) (wd s) (accepts s) (ldie s) (lerr s) (lrd s) (ltok s) (o_die s) (o_rerr s) true (o_ldie s) (o_lerr s)
+  | OLDie => mkShared (rtok s) (wtok s) (die s) (rerr s) (werr s) (readable s) (bufptr s) (room s) (rd s) (wd s) (accepts s) (ldie s) (lerr s) (lrd s) (ltok s) (o_die s) (o_rerr s) (o_werr s) true (o_lerr s)
+  | OLErr => mkShared (rtok s) (wtok s) (die s) (rerr s) (werr s) (readable s) (bufptr s) (room s) (rd s) (wd s) (accepts s) (ldie s) (lerr s) (lrd s) (ltok s) (o_die s) (o_rerr s) (o_werr s) (o_ldie s) true
   end.
 
 Definition dl (w : which) (s : shared) : dlv := match w with RD => rd s | WD => wd s | LRD => lrd s end.
@@ -257,6 +259,8 @@ Definition ready (op : chanop) (f : frame) (s : shared) : bool :=
   | RcvLDie => ldie s
   | SndReadEvent => negb (rtok s)
   | SndWriteEvent => negb (wtok s)
+  | RcvLEvent => ltok s
+  | SndLEvent => negb (ltok s)
   end.
 
 Definition fire (op : chanop) (f : frame) (s : shared) : list (frame * shared) :=
@@ -269,6 +273,8 @@ Definition fire (op : chanop) (f : frame) (s : shared) : list (frame * shared) :
   | RcvAccept => map (fun n => (f, set_accepts n s)) (sat_dec cap (accepts s))
   | SndReadEvent => [(f, set_rtok true s)]
   | SndWriteEvent => [(f, set_wtok true s)]
+  | RcvLEvent => [(f, set_ltok false s)]
+  | SndLEvent => [(f, set_ltok true s)]
   end.
 
 Definition uses_timer_c (cases : list (chanop * list stmt)) : bool :=
@@ -517,6 +523,7 @@ Definition env_step (l : label) (st : state) : list state :=
                             | _ => None end) i st
   | LStealR => if rtok s then [with_sh st (set_rtok false s)] else []
   | LStealW => if wtok s then [with_sh st (set_wtok false s)] else []
+  | LStealL => if ltok s then [with_sh st (set_ltok false s)] else []
   | LStealAccept => map (fun n => with_sh st (set_accepts n s)) (sat_dec cap (accepts s))
   | LTakeData => map (fun n => with_sh st (set_readable n s)) (sat_dec cap (readable s))
   | LTakeBuf => if bufptr s then [with_sh st (set_bufptr false s)] else []
@@ -573,6 +580,6 @@ Definition pthread (t : thread) (p : positive) : positive :=
   ppoint (pc t) (ptm (tm (lc t)) (pch (ch (lc t)) (pb (cv (lc t)) (pb (g_closed t) (pb (g_data t) p))))).
 Definition pshared (s : shared) (p : positive) : positive :=
   pb (rtok s) (pb (wtok s) (pb (die s) (pb (rerr s) (pb (werr s) (pnat 2 (readable s) (pb (bufptr s)
-  (pb (room s) (pdl (rd s) (pdl (wd s) (pnat 2 (accepts s) (pb (ldie s) (pb (lerr s) (pdl (lrd s) p))))))))))))).
+  (pb (room s) (pdl (rd s) (pdl (wd s) (pnat 2 (accepts s) (pb (ldie s) (pb (lerr s) (pb (ltok s) (pdl (lrd s) p)))))))))))))).
 Definition key (st : state) : positive :=
   pshared (sh st) (fold_right pthread xH (ths st)).
